@@ -93,6 +93,19 @@ LowerRollingIter(L, w) ==
     Trust(Zip(Src(L), Chain(Rep(w - 1), Src(L))), L)
 
 Truthful(t) == Decl(t) = Yield(t)
+\* the LOWER bound of the size hint a term announces: a filter promises nothing, the std combinators
+\* propagate the bounds of their parts, the library's wrapper announces its declared length as both bounds
+RECURSIVE HintLo(_)
+HintLo(t) ==
+    CASE t.op = "trust"  -> t.len
+      [] t.op = "filter" -> 0
+      [] t.op = "chain"  -> Min2(INFTY, HintLo(t.a) + HintLo(t.b))
+      [] t.op = "take"   -> Min2(t.k, HintLo(t.a))
+      [] t.op = "skip"   -> Max2(0, HintLo(t.a) - t.k)
+      [] t.op = "zip"    -> Min2(HintLo(t.a), HintLo(t.b))
+      [] OTHER           -> Yield(t)
+\* an exact-size iterator announces lower = upper = what it yields
+ExactHint(t) == HintLo(t) = Decl(t) /\ Truthful(t)
 
 \* C09: every adaptor announces what it yields, for every parameter in the band
 ConstructionTruthful ==
@@ -104,13 +117,16 @@ ConstructionTruthful ==
       /\ \A v \in 0..LL, k \in 0..(LL + 2), sort \in BOOLEAN :
             Truthful(LowerPartition(LL, v, k, sort)) /\ Yield(LowerPartition(LL, v, k, sort)) = k + 1
       /\ \A w \in 1..(LL + 2) : Truthful(LowerRollingIter(LL, w)) /\ Yield(LowerRollingIter(LL, w)) = LL
+      \* the partition adaptors wrap a FILTER: only the wrapper makes their hint exact
+      /\ \A v \in 0..LL, k \in 0..(LL + 2), sort \in BOOLEAN : ExactHint(LowerPartition(LL, v, k, sort))
+      /\ ExactHint(Trust(Filter(Src(LL), LL), LL)) /\ HintLo(Filter(Src(LL), LL)) = 0
 
 (* ---- (2) consumption machines -------------------------------------------------------- *)
 
 Kinds == {"titer", "map", "shift", "vshift", "vdiff", "vpct", "fill", "clip", "partition", "argpartition",
-          "rolling_iter", "linspace", "range", "pipe2", "pipe3", "to_trust"}
+          "rolling_iter", "linspace", "range", "pipe2", "pipe3", "to_trust", "to_trust_f"}
 \* kinds whose real type is double-ended (the boxed dyn TrustedLen results are forward-only)
-DoubleEnded == {"titer", "map", "linspace", "range", "to_trust"}
+DoubleEnded == {"titer", "map", "linspace", "range", "to_trust", "to_trust_f"}
 
 VARIABLES kind, L, p, q,     \* adaptor, source length, two integer parameters
           total,             \* items the iterator yields in all (Yield of its lowering)
@@ -122,6 +138,11 @@ vars == <<kind, L, p, q, total, decl, kf, kb, sched>>
 Term ==
     CASE kind \in {"titer", "map", "fill", "clip"} -> Src(L)
       [] kind = "to_trust" -> Trust(Src(L), L)               \* the wrapper itself, on its concrete type
+      \* ... around a source whose OWN size hint promises nothing (a filter keeping every item announces
+      \* (0, Some(L))): the wrapper still announces exactly what was declared, lower bound included -
+      \* std adaptors stacked on it (enumerate / zip / skip driven from the back) call len(), which
+      \* demands lower = upper
+      [] kind = "to_trust_f" -> Trust(Filter(Src(L), L), L)
       [] kind \in {"shift", "vshift"} -> LowerVShift(L, p)
       [] kind = "vdiff" -> LowerVDiff(L, p)
       [] kind = "vpct"  -> LowerVPct(L, p)
@@ -194,7 +215,7 @@ HintExact == Announced = Remaining
 \* C09 / C13: shift-like adaptors preserve the length of their input
 LenPreservedInv ==
     kind \in {"titer", "map", "shift", "vshift", "vdiff", "vpct", "fill", "clip", "rolling_iter", "pipe2", "pipe3",
-              "linspace", "range", "to_trust"} => total = L
+              "linspace", "range", "to_trust", "to_trust_f"} => total = L
 PartitionLen == kind \in {"partition", "argpartition"} => total = p + 1
 \* a trusted collector allocates Announced slots and writes Remaining items
 CollectSafe == (kf = 0 /\ kb = 0) => decl = total
